@@ -61,6 +61,19 @@ pub fn check_phrase(ctx: &Ctx, sweep: &str, idx: u64, text: &str) {
     }
 }
 
+/// reference comparison of one phrase as a plain verdict (used by the history sweeps)
+pub fn verdict(text: &str) -> Result<&'static str, String> {
+    let (class, _) = classify(text);
+    match observe(text) {
+        Err(p) => Err(format!("panics: {p}")),
+        Ok(None) => if let Class::Accept(_) = class { Err("a valid BIP-39 phrase is rejected".into()) } else { Ok("rejected") },
+        Ok(Some(o)) => match class {
+            Class::Reject => Err(format!("a phrase BIP-39 does not allow is accepted (printed back as '{}')", o.printed)),
+            Class::Accept(c) | Class::Unc(c) => if o.printed == c && o.display == c && o.len == c.split(' ').count() && o.reparsed.as_deref() == Some(c.as_str()) && o.fromstr_same { Ok("accepted") } else { Err(format!("printed '{}' with length {} instead of '{c}'", o.printed, o.len)) },
+        },
+    }
+}
+
 pub fn filler_index(seed: u64, n: usize, j: usize, round: u64) -> usize { (mix(seed ^ (round << 40), (n * 64 + j) as u64) % 2048) as usize }
 /// n-word phrase of filler words whose last word is recomputed so the checksum is right
 pub fn valid_indices(seed: u64, n: usize, round: u64, fix: Option<(usize, usize)>) -> Vec<usize> {
@@ -150,4 +163,5 @@ pub fn run(ctx: &Ctx) {
     }
     for n in lens { ctx.guard_check(&format!("{n}-word phrases accepted"), ctx.has_class(&format!("words={n},valid:accepted")), "at least one valid phrase of this length was accepted"); }
     ctx.guard_check("bad checksums rejected", ctx.classes_matching(|c| c.ends_with("bad-checksum:rejected")) >= 5, "each valid length saw a checksum mismatch rejected");
+    crate::hist::histories(ctx, P, "phrase-histories", "Mnemonic::from_phrase / to_phrase, a sequence on one fresh thread", crate::hist::c01_ops(ctx.seed));
 }
